@@ -88,7 +88,7 @@ def gen_file(rnd):
             cat, sub = '', ''                      # tag-only row
         elif r < .2:
             sub = ''
-        tags = [rnd.choice(['recurring', 'Business', 'INCOME', 'needs review', 'Q1', 'a-b', 'acct #2', 'ps\u2029tag', 'Spa\u00df', '\u0394\u03b9\u03b1\u03ba\u03bf\u03c0\u03ad\u03c2']) for _ in range(rnd.choice([0, 0, 1, 2]))]
+        tags = [rnd.choice(['recurring', 'Business', 'INCOME', 'needs review', 'Q1', 'a-b', 'acct #2', 'ps\u2029tag', "kid's", 'Spa\u00df', '\u0394\u03b9\u03b1\u03ba\u03bf\u03c0\u03ad\u03c2']) for _ in range(rnd.choice([0, 0, 1, 2]))]
         if not cat and rnd.random() < .7 and not tags:
             tags = ['flag']                        # (a row with neither category nor tags is legal CSV and has no effect)
         rules.append(R.CsvRule(gen_pattern(rnd), gen_mods(rnd), '' if rnd.random() < .05 else rnd.choice(['Netflix', 'Uber Eats', "Joe's Diner", 'Shop & Co', 'M%d' % i, 'A: B', 'Big [Box]', 'Line\u2028Sep Co', 'Form\x0cFeed', 'Unit #4', 'Nel\x85Name']),
